@@ -50,6 +50,8 @@ def plan(tier, seed):
         for proto in ('tlcp', 'tls12', 'tls13'):
             for i in range(na):
                 units.append({'kind': 'authpeer', 'proto': proto, 'slice': i, 'nslices': na, 'rep': rep, 'weight': 4})
+        for i in range(na):
+            units.append({'kind': 'authpeer-client', 'slice': i, 'nslices': na, 'rep': rep, 'weight': 4})
     return units
 
 
@@ -677,8 +679,96 @@ def u_authpeer(ctx, u):
     cli_ctx.free()
 
 
+def u_authpeer_client(ctx, u):
+    """The library TLS 1.3 *client* after a complete handshake with the Python server: validly protected records of unusual
+    content from the server (see u_authpeer)."""
+    import socket
+    import threading
+    from .. import tlsutil as T
+    from ..ref import sm2 as R
+    from ..ref import x509 as X
+    from .. import hostile13 as H13
+    rng = ctx.rng
+    creds = T.Creds(ctx, 'c06ac', 1)
+    srv_ctx, cli_ctx = T.pair_ctx(ctx, creds, T.TLS13, False)
+    base = T.run_handshake(ctx, srv_ctx, cli_ctx, seed=78, use_proxy=True)
+    ok = base['server'].ret == 1 and base['client'].ret == 1
+    sh = [r for i, d, r in base['proxy'].records if d == 's>c' and r[0] == T.REC_HANDSHAKE and r[5] == 2]
+    T.close_pair(base)
+    if not ctx.check(ok and sh, 'peer:baseline-handshake-failed:tls13'):
+        return
+    chain = [creds.sign_cert] + list(reversed(creds.pki.inters))
+    cases = [c for i, c in enumerate(_auth_cases13(rng)) if i % u['nslices'] == u['slice']]
+    for case in cases:
+        name = case[0]
+        c_end, s_end = socket.socketpair()
+        cli = T.Endpoint(ctx, cli_ctx, c_end, 'c', rng.randrange(1, 1 << 30), bool(rng.getrandbits(1)))
+        th = threading.Thread(target=cli.handshake)
+        th.start()
+        good = False
+        try:
+            ctx.begin(['authpeer-client', name])
+            sv = H13.Server(s_end, sh[0], rng.randrange(1, R.N - 1), rng.randbytes(32))
+            if sv.start():
+                sv.send_hs(H13.hs_msg(8, b'\x00\x00'))
+                sv.send_hs(H13.certificate_msg(chain))
+                sv.send_hs(H13.server_certificate_verify_msg(creds.sign_priv, sv.transcript, k=rng.randrange(1, R.N - 1)))
+                sv.finish()
+                good = sv.read_client_finished()
+        except (OSError, ValueError):
+            good = False
+        th.join(20)
+        if not (good and cli.ret == 1 and not th.is_alive()):
+            ctx.stat('authpeer_handshake_not_completed')
+            for sk in (c_end, s_end):
+                sk.close()
+            continue
+        outcome = []
+
+        def reader():
+            cli.thread_setup()
+            for _ in range(4):
+                r, d, over = cli.recv(rng.choice([1, 100, 16384, 20000]))
+                outcome.append((r, len(d), over))
+                if r != 1:
+                    break
+        t2 = threading.Thread(target=reader)
+        t2.start()
+        try:
+            inner = case[2] + bytes([case[1]]) + bytes(case[3])
+            if name == 'all-padding':
+                inner = bytes(case[3])
+            sv.send_app_inner(inner, 0)
+            sv.send_app_inner(b'after' + bytes([23]), 1)
+            s_end.shutdown(socket.SHUT_WR)
+        except OSError:
+            pass
+        t2.join(20)
+        if t2.is_alive():
+            try:
+                s_end.shutdown(socket.SHUT_RDWR)
+            except OSError:
+                pass
+            t2.join(10)
+            ctx.check(not t2.is_alive(), 'hang:tls-recv-after-authenticated-record:tls13:client', case=name)
+        ctx.check(not any(o[2] for o in outcome), 'peer:recv-reported-more-than-capacity:tls13', case=name, outcome=outcome, victim='client')
+        ctx.ok()
+        ctx.nontrivial('authpeer-client', name, tuple(o[0] for o in outcome))
+        ctx.stat('authpeer_cases')
+        ctx.stat('authpeer_recv_%s' % ('accepted-something' if any(o[0] == 1 for o in outcome) else 'refused'))
+        for sk in (c_end, s_end):
+            try:
+                sk.close()
+            except OSError:
+                pass
+        cli.conn.free()
+    ctx.sample({'kind': 'authpeer-client', 'cases': len(cases)})
+    srv_ctx.free()
+    cli_ctx.free()
+
+
 def run_unit(ctx, u):
-    {'seeds': u_seeds, 'peer': u_peer, 'authpeer': u_authpeer}[u['kind']](ctx, u)
+    {'seeds': u_seeds, 'peer': u_peer, 'authpeer': u_authpeer, 'authpeer-client': u_authpeer_client}[u['kind']](ctx, u)
 
 
 # =====================================================================================
